@@ -7,7 +7,7 @@ SPEC = {
     "driver": "Driver/C06.lean",
     "needs_plz": False,
     "level": "proof",
-    "level_text": "full: soundness (every reported list is a genuine dependency cycle of graph targets), completeness "
+    "level_text": "full: soundness (every reported list is a genuine, simple dependency cycle of graph targets), completeness "
                   "(a cycle through any target is reported), no false report on acyclic graphs, and termination of the "
                   "recursion bound, for every graph, every dependency order and every target iteration order; the "
                   "theorems are about the transcription Model/Cycle.lean of cycleDetector.Check; the `stopped` flag "
@@ -27,7 +27,7 @@ SPEC = {
         "the detector is not stopped (cycleDetector.stopped == false) and the graph is not mutated while Check runs",
         "the graph contains every resolved dependency of its targets (WF): BuildGraph only resolves to targets it holds",
     ],
-    "explanation": "C06_sound, C06_complete, C06_acyclic_not_reported, C06_iff, C06_fuel, C06_reported_listed, C06_any_order "
+    "explanation": "C06_sound, C06_reported_simple (no target listed twice), C06_complete, C06_acyclic_not_reported, C06_iff, C06_fuel, C06_reported_listed, C06_any_order "
                    "quantify over all graphs and orders; FactsOK ties them to the shape of visit read from the source on this run.",
 }
 
